@@ -157,6 +157,106 @@ func runIndep(c *IndepCase) (out [][]byte, v *evid.Violation) {
 
 func spanEnabled() bool { return os.Getenv("VERIF_SPAN") == "1" }
 
+// runIndepDelayed decodes every value from a buffer of its own, with contents repeating every third value
+// (so that caches keyed on content are hit), keeps all buffers intact until the end and only then
+// overwrites them one at a time, re-verifying every value after each. In between the allocator switch is
+// flipped off and on when flip is set.
+func runIndepDelayed(c *IndepCase, flip bool) *evid.Violation {
+	type item struct {
+		in   []byte
+		s    string
+		b    []byte
+		isB  bool
+		want []byte
+	}
+	var items []item
+	n := len(c.Lens)
+	if n > 40 {
+		n = 40
+	}
+	for i := 0; i < n; i++ {
+		l := c.Lens[i]
+		if l > 70000 {
+			l = l % 70000
+		}
+		content := i % 3 // repeated contents
+		mode := c.Mode[i%len(c.Mode)]
+		var in []byte
+		it := item{}
+		if mode == 6 || mode == 7 {
+			// message header whose method name is the value
+			if l > 200 {
+				l = l % 200
+			}
+			name := make([]byte, l)
+			for j := range name {
+				name[j] = valByte(content, j)
+			}
+			in = refMsgHeader(string(name), 1, int32(i))
+			it.want = name
+			var err error
+			if mode == 6 {
+				rd := bufiox.NewBytesReader(in)
+				r := thrift.NewBufferReader(rd)
+				it.s, _, _, err = r.ReadMessageBegin()
+				r.Recycle()
+			} else {
+				it.s, _, _, _, err = thrift.Binary.ReadMessageBegin(in)
+			}
+			if err != nil {
+				return evid.Failf("delayed pass: ReadMessageBegin %d failed: %v", i, err)
+			}
+		} else {
+			in = make([]byte, 4+l)
+			in[0], in[1], in[2], in[3] = byte(l>>24), byte(l>>16), byte(l>>8), byte(l)
+			for j := 0; j < l; j++ {
+				in[4+j] = valByte(content, j)
+			}
+			it.want = append([]byte(nil), in[4:]...)
+			var err error
+			if mode%2 == 0 {
+				it.s, _, err = thrift.Binary.ReadString(in)
+			} else {
+				it.b, _, err = thrift.Binary.ReadBinary(in)
+				it.isB = true
+			}
+			if err != nil {
+				return evid.Failf("delayed pass: decode %d failed: %v", i, err)
+			}
+		}
+		it.in = in
+		items = append(items, it)
+		if flip && i == n/2 {
+			thrift.SetSpanCache(false)
+			thrift.SetSpanCache(true)
+		}
+	}
+	verify := func(when string) *evid.Violation {
+		for i := range items {
+			got := []byte(items[i].s)
+			if items[i].isB {
+				got = items[i].b
+			}
+			if !bytes.Equal(got, items[i].want) {
+				return evid.Failf("%s: value %d (%d bytes) changed; first difference at %d", when, i, len(items[i].want), firstDiff(got, items[i].want))
+			}
+		}
+		return nil
+	}
+	if v := verify("delayed pass, before any buffer was touched"); v != nil {
+		return v
+	}
+	for i := range items {
+		for j := range items[i].in {
+			items[i].in[j] = 0xEE
+		}
+		if v := verify(fmt.Sprintf("delayed pass, after overwriting only the input buffer of decode %d", i)); v != nil {
+			return v
+		}
+	}
+	return nil
+}
+
 func checkIndep(c IndepCase, cv *cov) (v *evid.Violation) {
 	if len(c.Lens) == 0 || len(c.Mode) == 0 {
 		return nil
@@ -179,10 +279,18 @@ func checkIndep(c IndepCase, cv *cov) (v *evid.Violation) {
 			v.Msg = "span cache disabled: " + v.Msg
 			return
 		}
+		if v = runIndepDelayed(&c, false); v != nil {
+			v.Msg = "span cache disabled: " + v.Msg
+			return
+		}
 		thrift.SetSpanCache(true)
 		defer thrift.SetSpanCache(false)
 		if on, v = runIndep(&c); v != nil {
 			v.Msg = "span cache enabled: " + v.Msg
+			return
+		}
+		if v = runIndepDelayed(&c, true); v != nil {
+			v.Msg = "span cache enabled (switched off and on again between decodes): " + v.Msg
 			return
 		}
 		if len(on) != len(off) {
@@ -246,7 +354,7 @@ func genIndepCase(t *rapid.T) IndepCase {
 			c.Lens = append(c.Lens, rapid.OneOf(rapid.SampledFrom(indepLens), rapid.IntRange(0, 3000)).Draw(t, "len"))
 		}
 	}
-	c.Mode = rapid.SliceOfN(rapid.IntRange(0, 6), 1, 7).Draw(t, "modes")
+	c.Mode = rapid.SliceOfN(rapid.IntRange(0, 7), 1, 7).Draw(t, "modes")
 	return c
 }
 
